@@ -275,6 +275,11 @@ class CallMixin:
                 from .values import mk_sym
 
                 rv = replace(rv, sym=mk_sym("call", "fn:" + fi.name, *syms))
+        h = self.hooks.get("call-result")
+        if h is not None:
+            r = h(self, fv, args, rv, node)
+            if r is not None:
+                rv = r
         self.event("return", node, callee=label, val=rv)
         return rv
 
